@@ -64,7 +64,23 @@ def is_positive_scalar(t):
     return is_scalar(t) and bool(t > 0)
 
 
-@register_qbytestensor_op([torch.ops.aten._to_copy, torch.ops.aten.to])
+@register_qbytestensor_op([torch.ops.aten.to])
+def to(op, t, *args, **kwargs):
+    # Tensor.to is only dispatched as such in inference mode (it is decomposed otherwise), with the positional
+    # arguments of its overloads (device, dtype or another Tensor): evaluate it as a _to_copy
+    dtype, device = kwargs.pop("dtype", None), kwargs.pop("device", None)
+    for arg in args:
+        if isinstance(arg, torch.dtype):
+            dtype = arg
+        elif isinstance(arg, (str, torch.device)):
+            device = arg
+        elif isinstance(arg, torch.Tensor):
+            dtype, device = arg.dtype, arg.device
+    kwargs.pop("copy", None)
+    return get_qbytestensor_op_dispatch(torch.ops.aten._to_copy)(t, dtype=dtype, device=device, **kwargs)
+
+
+@register_qbytestensor_op([torch.ops.aten._to_copy])
 def _to_copy(op, t, dtype=None, **kwargs):
     if dtype is not None and (not dtype.is_floating_point or dtype.itemsize == 1):
         # A quantized Tensor can only be expressed in a float dtype able to hold its scale: convert the dequantized values
